@@ -392,6 +392,18 @@ func NewWorld(spec Spec) *World {
 			pod.Annotations["volcano.sh/preemptable"] = "false"
 		}
 		ti := api.NewTaskInfo(pod)
+		// session-only statuses (what an allocate / backfill action run earlier in the same session leaves
+		// behind: Allocated, Binding after dispatch, Pipelined) cannot come from a pod: they are set on
+		// the task before it enters the job's index and the node's ledger, as Statement.Allocate /
+		// Pipeline / dispatch would have left them
+		switch t.Status {
+		case sched.SAllocated:
+			ti.Status = api.Allocated
+		case sched.SBinding:
+			ti.Status = api.Binding
+		case sched.SPipelined:
+			ti.Status = api.Pipelined
+		}
 		sw.Tasks[t.ID] = ti
 		sw.TSpec[t.ID] = t
 		if ji, ok := snap.Jobs[ti.Job]; ok {
